@@ -242,7 +242,7 @@ variable {F : Nat → Option (List Nat)} {inputs0 : List (List Item)}
 
 def Covered (c : Cfg) : Prop := ∀ i, i < c.inputs.length → ∃ t ∈ c.ths, t.isProd = true ∧ t.sid = i
 
-def retP (t : PThread) : List Nat := if t.isProd then [retOf t] else []
+def retP (t : PThread) : List Nat := if t.isProd then retsT t else []
 
 def retsOf (c : Cfg) : List Nat := (c.ths.map retP).flatten
 
@@ -280,16 +280,16 @@ theorem fixed_reachable {c0 c : Cfg} (h : Reachable F c0 c) : (Covered c0 → Co
     exact ⟨fun h => h1 (ih.1 h), h2.trans ih.2⟩
 
 theorem retsOf_init (cap bm mw : Nat) (ns : Option Nat) (soe : Bool) (inputs : List (List Item))
-    (prods : List ProdSpec) : retsOf (init cap bm mw ns soe inputs prods) = prods.map (·.ret) := by
+    (prods : List ProdSpec) : retsOf (init cap bm mw ns soe inputs prods) = prods.flatMap (fun p => p.ret :: p.more) := by
   unfold retsOf init
   simp only [List.map_cons, List.flatten_cons]
-  have : ∀ ps : List ProdSpec, ((ps.map mkProducer).map retP).flatten = ps.map (·.ret) := by
+  have : ∀ ps : List ProdSpec, ((ps.map mkProducer).map retP).flatten = ps.flatMap (fun p => p.ret :: p.more) := by
     intro ps
     induction ps with
     | nil => rfl
     | cons p ps ih =>
       simp only [List.map_cons, List.flatten_cons, ih]
-      simp [retP, mkProducer, retOf]
+      simp [retP, mkProducer, retOf, retsT]
   rw [this]; simp [retP, mkConsumer]
 
 /-- the sequential evaluation of `iter_fn` over the items of an input: `none` if the input or the
@@ -370,7 +370,7 @@ theorem end_facts {cap bm mw : Nat} {ns : Option Nat} {soe : Bool} {inputs : Lis
     {t0 : PThread} (h0 : c.ths[0]? = some t0) {r : List Nat} (hout : t0.iterOutcome = some (.stop r))
     (he : t0.early = false) :
     c.sh.exc = none ∧ AllStopped c ∧ c.sh.q = [] ∧ c.sh.returned = r ∧
-    r.Perm (prods.map (·.ret)) ∧
+    r.Perm (prods.flatMap (fun p => p.ret :: p.more)) ∧
     (∃ out, seqEval F inputs.flatten = some out ∧ (t0.q.received.map (·.2)).Perm out) := by
   have hx := exc_none_of_stop h t0 h0 he (Or.inl ⟨r, hout⟩)
   have hn : NF c := ⟨hx, fun u hu => by rw [h0] at hu; cases hu; exact he⟩
